@@ -199,6 +199,14 @@ func runC03(c *Cfg) {
 			}
 			r.Count("random.scenarios_ending_in_failure", 1)
 		}
+		if sc.Runs > 1 && i%6 == 0 {
+			// run 0 is cancelled inside one of its callbacks; the later runs of the same objects (live context) follow the
+			// table exactly as if that run had simply stopped there
+			if np, _ := modelPath(sc); len(np) > 0 {
+				sc.Inject = scen.Inject{Kind: []string{"cancel", "deadline"}[i/6%2], At: rg.IntN(3 * len(np)), OneRun: true, Run: 0}
+				r.Count("random.scenarios_with_cancelled_run_then_rerun", 1)
+			}
+		}
 		if i%5 == 3 {
 			addRandomMidConnects(rg, sc)
 			if len(sc.MidConnect) > 0 {
